@@ -5,8 +5,8 @@ CONSTANTS
   Valid = {"ks1"}
   Attr <- MCAttr
   NHosts = 2
-  MaxOps = 4
-  StoreUnderReadLock = @STOREUNDERREAD@
-  SelectIgnoresFailure = @SELECTIGNORES@
-PROPERTIES TableWriteExclusive
+  MaxOps = 3
+  StoreUnderReadLock = FALSE
+  SelectIgnoresFailure = TRUE
+INVARIANTS OnlyValidKs NoBrokenSession
 CHECK_DEADLOCK FALSE
